@@ -148,11 +148,13 @@ class Quantity:
     def __eq__(self, other):
         if isinstance(other, (int, float)):
             other = Quantity(other)
-        if np.all(other.magnitude.value!=0):
-            other.to(self.units())
-        if not np.allclose(self.magnitude.value, other.magnitude.value, rtol=MAGNITUDE_PRECISION):
+        value, baseunits = other.magnitude.value, other.baseunits
+        if np.all(value!=0):
+            baseunits = BaseUnits(self.units())
+            value = self._convert(other.magnitude, other.baseunits, baseunits).value
+        if not np.allclose(self.magnitude.value, value, rtol=MAGNITUDE_PRECISION):
             return False
-        if not self.baseunits==other.baseunits:
+        if not self.baseunits==baseunits:
             return False
         return True
     
